@@ -12,7 +12,14 @@ fn m_entry(pat: usize, i: usize, j: usize) -> f64 {
 fn build_m(pat: usize, m: usize, n: usize, dev: Option<(usize, usize)>) -> Vec<Vec<f64>> {
     let mut a: Vec<Vec<f64>> = (0..m).map(|i| (0..n).map(|j| m_entry(pat, i, j)).collect()).collect();
     if let Some((i, j)) = dev {
-        a[i][j] = 6.5; // a value no pattern entry takes: a misplaced column or row shows
+        if i == usize::MAX {
+            // the map does not depend on variable j at all: the perturbed evaluation equals the unperturbed one
+            for row in a.iter_mut() {
+                row[j] = 0.0;
+            }
+        } else {
+            a[i][j] = 6.5; // a value no pattern entry takes: a misplaced column or row shows
+        }
     }
     a
 }
@@ -167,10 +174,10 @@ fn smooth_case(m: usize, n: usize, acc: &mut Acc) -> Result<(), String> {
 fn main() {
     let ctx = Ctx::from_args("C18");
     ctx.level("exploration");
-    ctx.rule("E1: every shape (m,n) in 1..6 x 1..6 (m<n, m=n, m>n), affine maps x -> Mx + c with two dyadic matrices and every single-entry deviation of M, every point of {-4,-1.5,0,0.25,3}^n for n<=3 and 5 corner/centre points above, every step 2^-4..2^-26 and 1e-8, through Mat64::jacobian and Matrix::<Cmplx>::jacobian_cmplx: shape exactly m x n, entries exactly M for dyadic steps (all arithmetic exact) and within rounding for 1e-8; the closure logs its arguments: call 0 is the point, call j+1 is the point with coordinate j increased by exactly delta and all others restored; smooth maps within 10*delta*max|F''|. Non-trivial: m < n, m > n, n >= 2.");
+    ctx.rule("E1: every shape (m,n) in 1..6 x 1..6 (m<n, m=n, m>n), affine maps x -> Mx + c with two dyadic matrices, every single-entry deviation of M and every zero column of M (a variable the map ignores), every point of {-4,-1.5,0,0.25,3}^n for n<=3 and 5 corner/centre points above, every step 2^-4..2^-26 and 1e-8, through Mat64::jacobian and Matrix::<Cmplx>::jacobian_cmplx (plus twelve larger shapes up to 64 x 2 / 5 x 33): shape exactly m x n, entries exactly M for dyadic steps (all arithmetic exact) and within rounding for 1e-8; the closure logs its arguments: call 0 is the point, call j+1 is the point with coordinate j increased by exactly delta and all others restored; smooth maps within 10*delta*max|F''|. Non-trivial: m < n, m > n, n >= 2.");
     ctx.assume("exactness for dyadic data relies on every product and sum fitting in 53 bits, which holds for the chosen alphabets");
     ctx.threshold("smooth_jacobian_error_over_tolerance", 1.0);
-    ctx.require(&["wide (m < n)", "tall (m > n)", "jacobian calls"]);
+    ctx.require(&["wide (m < n)", "tall (m > n)", "jacobian calls", "shape with m or n above 6"]);
     let thorough = true; // single-entry deviations are cheap enough for both tiers
     ctx.lattice(
         "affine maps, shapes (m,n) in 1..6 x 1..6 x 2 matrices",
@@ -190,6 +197,10 @@ fn main() {
             let mut local = Acc::new("t");
             let res = catch(|| {
                 affine_case(m, n, pat, None, &mut local)?;
+                for dj in 0..n {
+                    // variable dj does not enter the map (zero column of M)
+                    affine_case(m, n, pat, Some((usize::MAX, dj)), &mut local)?;
+                }
                 if thorough {
                     for di in 0..m {
                         for dj in 0..n {
@@ -210,6 +221,35 @@ fn main() {
             }
         },
     );
+    // shapes beyond 6: every block size / unrolling factor of the column store and of the vector arithmetic is crossed
+    {
+        let shapes: Vec<(usize, usize)> = vec![(7, 3), (8, 8), (9, 3), (11, 3), (3, 9), (13, 13), (16, 4), (17, 2), (2, 17), (33, 5), (5, 33), (64, 2)];
+        let sh = shapes.clone();
+        ctx.lattice(
+            &format!("affine maps, larger shapes {:?} x 2 matrices (real and complex)", shapes),
+            shapes.len() as u64 * 2,
+            |i| format!("{:?} pattern={}", sh[(i / 2) as usize], i % 2),
+            |i, acc| {
+                let (m, n) = sh[(i / 2) as usize];
+                let pat = (i % 2) as usize;
+                acc.nontriv("shape with m or n above 6");
+                let mut local = Acc::new("t");
+                let res = catch(|| {
+                    affine_case(m, n, pat, None, &mut local)?;
+                    affine_case(m, n, pat, Some((m - 1, n - 1)), &mut local)?;
+                    affine_case_cmplx(m, n, pat)
+                });
+                for (k, v) in std::mem::take(&mut local.hits) {
+                    *acc.hits.entry(k).or_insert(0) += v;
+                }
+                match res {
+                    Ok(Ok(())) => {}
+                    Ok(Err(e)) => acc.fail(i, format!("affine m={} n={} pattern={}", m, n, pat), e),
+                    Err(p) => acc.fail(i, format!("affine m={} n={} pattern={}", m, n, pat), format!("unexpected panic: {}", p)),
+                }
+            },
+        );
+    }
     // call sequences on one thread: a Jacobian of a map with MANY variables followed by ones with fewer (and back)
     ctx.lattice(
         "call sequences on one thread: dimensions n = 6,5,..,1,4,2,6 in a row (nothing may be carried from call to call)",
